@@ -61,7 +61,10 @@ def cells(tier):
     out.append(rt(['none'], maxlen=1, T=2 * T, tree='ids', example={'c0': ' ', 'c1': chr(9)}))
     out.append(rt(['roItemReplace'], maxlen=1, T=2 * T, tree='ids', example={'c0': chr(10), 'c1': ' '}))
     out.append(rt(['none'], maxlen=1, T=2 * T, latin=True))
-    out.append(rt(['roStorySend'], maxlen=1, T=2 * T, latin=True))
+    out.append(rt(['roStorySend'], maxlen=1, T=2 * T, latin=True,
+                  example={'c0': '&lt;b&gt; AT&amp;T', 'c1': 'x &amp;#12; y \U0001F600'}))
+    out.append(rt(['roItemInsert', 'roStoryReplace'], maxlen=1, T=2 * T,
+                  example={'c0': '&amp;#13;&#10;', 'c1': '&quot; \u2028 \u00a0'}))
     # envelope invariants after every kind of merge (resolvable or not)
     keep = lambda op, story_k, tk, sk, nk: (sk is None or len(sk) == 1 or sk == ['existing', 'existing']) and \
         (nk is None or len(nk) == 1) and (tier == 'thorough' or story_k in (None, 'existing'))
